@@ -545,8 +545,26 @@ def st_E2_from_jacobian(L, ex, a, I):
     wr(ex, out.add(96), 12, simp(z3.If(isinf, y, z3.Extract(1535, 768, r))))
     wr(ex, out.add(192), 12, simp(z3.If(isinf, z, z3.BitVecVal(RMONT384, 768))))
 
+def st_mult_by_one(nbytes):
+    """POINTonE?_mult_glv/gls(out, P, scalar): only the multiplication by the concrete scalar 1 is modelled in this
+    stub family (out = P); it is what derives the public key of the private key 1 = the standard generator"""
+    def f(L, ex, a, I):
+        out, P, sc = a[0], a[1], a[2]
+        k = 0
+        for i in range(32):
+            b = ex.mem.byte_at(sc.obj, sc.off + i)
+            if not isinstance(b, int):
+                raise Unsupported('scalar multiplication by a symbolic scalar (field-primitive stub family)')
+            k |= b << (8 * i)
+        if k != 1:
+            raise Unsupported('scalar multiplication by %d (field-primitive stub family models only 1)' % k)
+        ex.memmove(out, P, nbytes)
+    return f
+
 def install(L):
     S = L.stubs
+    S.setdefault('@POINTonE1_mult_glv', st_mult_by_one(144))
+    S.setdefault('@POINTonE2_mult_gls', st_mult_by_one(288))
     S['@POINTonE1_in_G1'] = st_E1_in_G1
     S['@POINTonE2_in_G2'] = st_E2_in_G2
     S['@POINTonE1_from_Jacobian'] = st_E1_from_jacobian
